@@ -13,11 +13,12 @@ from sim.core import nint, Rejected, Violation
 from .c01 import PlanOracle
 
 ID = "C18"
+VARY_KNOBS = True  # module-level tuning constants of the library are lowered in some runs (sim.core.lower_tuning_constants)
 VARY_ARGFORM = True  # integer call arguments also arrive as numpy integer scalars
 GUARD_KERNELS = True
 SHRINK_LISTS = ("ops",)
 SHRINK_MIN = {"nsblk": 4, "nsub": 1, "nchans": 1, "gulp": 1, "nsamps": 1}
-SHRINK_SIMPLE = {"earlier_same_path": False, "gzip": False, "argform": "int", "bw_cards": 0}
+SHRINK_SIMPLE = {"knobs": None, "earlier_same_path": False, "gzip": False, "argform": "int", "bw_cards": 0}
 LAYOUTS = [("AABBCRCI", 4), ("AABBCRCI", 4), ("STOKE", 4), ("STOKE", 4), ("AABB", 2), ("INTEN", 1)]
 
 
